@@ -55,7 +55,16 @@ def begin_case(case):
         srf_flx=str(rng.choice(["C", "C", "F", "strided"])),
         scalars=str(rng.choice(["python", "numpy"])),
         decoys=bool(rng.random() < 0.3),
+        threads=int(rng.choice([1, 1, 1, 1, 1, 1, 1, 2, 3, 6])),
     )
+    # the process-wide thread setting of the solver: 30 % of the cases run the multi-thread kernel (2, 3 or 6 threads); checks that
+    # manage the setting themselves (C12, C14) overwrite it
+    try:
+        from bldfm import config as _rc
+
+        _rc.NUM_THREADS = _CASE["spell"]["threads"]
+    except Exception:
+        pass
 
 
 def _memo(key, make):
@@ -97,6 +106,7 @@ def _spell(kw):
         for name in ("halo", "srf_bg_conc"):
             if isinstance(kw.get(name), float):
                 kw[name] = np.float64(kw[name])
+    purity._count(f"solver_calls_with_threads:{sp['threads']}")
     purity._count(f"spelling:{sp['domain'][0]}{sp['modes'][0]}{sp['meas_pt'][0]}{sp['levels'][0]}{sp['profiles'][0]}{sp['srf_flx'][0]}{sp['scalars'][0]}")
     return kw
 
